@@ -315,6 +315,75 @@ Definition omap {A B} (g : A -> B) (o : outcome A) : outcome B :=
   match o with Ok v => Ok (g v) | Err c => Err c | Panic s => Panic s end.
 
 (* ------------------------------------------------------------------------- *)
+(* A whole packet decoded eagerly from Ethernet with default options (packet.go:503-523):
+   each decoder hands its payload to the next one unless the payload is empty; the
+   link/network/transport slots keep the first layer of their class (packet.go:158-174).
+   In scope: EtherType IPv4/IPv6, protocols TCP/UDP/SCTP (anything else: Err 98). *)
+Record stack := mkSt { st_link : option flow; st_net : option flow; st_tr : option flow }.
+
+Definition transport_of (proto : Z) (payload : list Z) : outcome (option flow) :=
+  if Nat.eqb (length payload) 0 then Ok None else
+  let k := if proto =? 6 then Some LTCP else if proto =? 17 then Some LUDP
+           else if proto =? 132 then Some LSCTP else None in
+  match k with
+  | None => Err 98
+  | Some k => match layer_flow k payload with
+              | Ok f => Ok (Some f) | Err c => Err c | Panic s => Panic s end
+  end.
+
+(* ip4.go:203-214,273-281: payload and next layer of a successfully decoded IPv4 header *)
+Definition ip4_next (data : list Z) : outcome (option flow) :=
+  let n := Z.of_nat (length data) in
+  let len16 := be16 data 2 in
+  let len16 := if len16 =? 0 then n mod 65536 else len16 in
+  let ihl := nthZ data 0 mod 16 in
+  let data' := if len16 <? n then firstn (Z.to_nat len16) data else data in
+  let payload := skipn (Z.to_nat (ihl * 4)) data' in
+  let ff := be16 data 6 in
+  if Z.testbit ff 13 || negb (ff mod 8192 =? 0) then Ok None   (* fragment: LayerTypeFragment *)
+  else transport_of (nthZ data 9) payload.
+
+(* ip6.go:222-290 without hop-by-hop *)
+Definition ip6_next (data : list Z) : outcome (option flow) :=
+  let len16 := be16 data 4 in
+  if len16 =? 0 then Ok None      (* decode error after the addresses were set *)
+  else
+    let rest := skipn 40 data in
+    let payload := firstn (Z.to_nat len16) rest in
+    transport_of (nthZ data 6) payload.
+
+Definition stack_flows (data : list Z) : outcome stack :=
+  match layer_flow LEthernet data with
+  | Panic s => Panic s
+  | Err _ => Ok (mkSt None None None)
+  | Ok lf =>
+    let et := be16 data 12 in
+    let payload := skipn 14 data in
+    if Nat.eqb (length payload) 0 then Ok (mkSt (Some lf) None None)
+    else if et =? 2048 then
+      match layer_flow LIPv4 payload with
+      | Panic s => Panic s
+      | Err c => Err c
+      | Ok nf =>
+        match ip4_decode payload with
+        | Ok _ => match ip4_next payload with
+                  | Ok t => Ok (mkSt (Some lf) (Some nf) t) | Err c => Err c | Panic s => Panic s end
+        | _ => Ok (mkSt (Some lf) (Some nf) None)
+        end
+      end
+    else if et =? 34525 then
+      match layer_flow LIPv6 payload with
+      | Panic s => Panic s
+      | Err c => Err c
+      | Ok nf =>
+        if (length payload <? 40)%nat then Ok (mkSt (Some lf) (Some nf) None)
+        else match ip6_next payload with
+             | Ok t => Ok (mkSt (Some lf) (Some nf) t) | Err c => Err c | Panic s => Panic s end
+      end
+    else Err 98
+  end.
+
+(* ------------------------------------------------------------------------- *)
 (* the operation interpreter run by the correspondence check *)
 Inductive op :=
 | ONewE (t : Z) (raw : list Z)
@@ -327,7 +396,8 @@ Inductive op :=
 | OInvalid
 | OCmpE (i j : nat)
 | OCmpF (k l : nat)
-| OLayer (k : lkind) (data : list Z).
+| OLayer (k : lkind) (data : list Z)
+| OPacket (data : list Z).
 
 Record state := mkS { s_eps : list endpoint; s_fls : list flow }.
 Definition init : state := mkS [] [].
@@ -346,7 +416,8 @@ Inductive obs :=
 | BFlow (f : fview)                       (* flow pushed by this op *)
 | BBoth (e : eview) (f : fview)
 | BCmpE (eq lt gt look : bool)
-| BCmpF (eq look hasheq : bool).
+| BCmpF (eq look hasheq : bool)
+| BStack (l n t : option fview).
 
 Definition push_e (s : state) (es : list endpoint) : state := mkS (s_eps s ++ es) (s_fls s).
 Definition push_f (s : state) (f : flow) : state := mkS (s_eps s) (s_fls s ++ [f]).
@@ -411,6 +482,15 @@ Definition step (s : state) (o : op) : state * obs :=
     | _, _ => (s, BSkip)
     end
   | OLayer k data => obs_of_flow s (layer_flow k data)
+  | OPacket data =>
+    match stack_flows data with
+    | Ok st =>
+      let fl o := match o with Some f => [f] | None => [] end in
+      (mkS (s_eps s) (s_fls s ++ fl (st_link st) ++ fl (st_net st) ++ fl (st_tr st)),
+       BStack (option_map view_f (st_link st)) (option_map view_f (st_net st)) (option_map view_f (st_tr st)))
+    | Err c => (s, BErr c)
+    | Panic _ => (s, BPanic)
+    end
   end.
 
 Fixpoint run_trace_from (s : state) (ops : list op) : list obs :=
